@@ -68,13 +68,16 @@ func (P *Prog) verifyFunc(key string, sweepOnly bool) (res *FuncResult) {
 	st.assume("(and (>= top_0 1) (<= top_0 4611686018427387904))")
 	fr := x.newFrame(fn, nil)
 	x.params = map[string]Val{}
-	for _, p := range fn.Params {
+	for pi, p := range fn.Params {
 		v := x.freshVal(st, "p_"+p.Name(), p.Type())
 		if v.K == KPtr && v.Ptr != nil {
 			v.Ptr.Enc = false // parameters are passed by reference: the callee sees a plain object
 		}
 		fr.vals[p] = v
 		x.params[p.Name()] = v
+		if a := P.paramAlias(fn, pi); a != "" {
+			x.params[a] = v
+		}
 	}
 	for _, fv := range fn.FreeVars {
 		v := x.freshVal(st, "fv_"+fv.Name(), fv.Type())
